@@ -12,7 +12,7 @@
 (*   Retry     `continue` (EOF before LF) -- hook follow_retry sits here   *)
 (*   WAppend   the writer process appending k more bytes                   *)
 (*                                                                         *)
-(* Bytes are naturals (their real values): 97 'a', 98 'b', 10 LF, 13 CR,   *)
+(* Bytes are naturals (their real values): 97 'a', 32 ' ', 10 LF, 13 CR,   *)
 (* 195 169 = the two bytes of U+00E9, 255 = a byte that is not UTF-8.      *)
 (***************************************************************************)
 EXTENDS Naturals, Sequences, FiniteSets, TLC
@@ -31,7 +31,7 @@ LF == 10
 M1 == 195
 M2 == 169
 BAD == 255         \* a byte that is not valid UTF-8 anywhere (the line is delivered with U+FFFD in its place: lossy decoding of the whole line)
-Sym == {97, 98, LF, 13, M1, M2, BAD}
+Sym == {97, 32, LF, 13, M1, M2, BAD}        \* (a blank: white space at the end of a line is part of the line)
 
 VARIABLES content, pre, head, cap,   \* chosen once per behaviour
           written,                  \* bytes of content already in the file
